@@ -1796,6 +1796,18 @@ func init() {
 					"n0:2x3,t0,r0:6,B,n1:6,a012,R2,R1,n3:6,B",
 					"n0:2x3x2,t0,c01,u0,x1,B,R1,n2:2x3x2,B,R0,n3:2x3x2")
 			}
+			// a scalar operand given as a scalar-shaped tensor is a live tensor: every arithmetic operation, layout and mode
+			// must hand it back unchanged, and must not recycle its storage (checked by a later Go-scalar operation)
+			nz := 0
+			for _, op := range []string{"Add", "Sub", "Mul", "Div"} {
+				for _, la := range []string{"C", "T", "S", "SS"} {
+					for _, mode := range []string{"", "unsafe", "reuse", "incr"} {
+						nz++
+						out = append(out, mkInst("vhC06Bin", map[string]interface{}{"dtype": []string{"float64", "int", "float32"}[nz%3], "op": op, "form": "TZ", "shape": []int{2, 3}, "la": la, "lb": "C", "api": "func", "mode": mode, "ld": "C", "after": 1},
+							"dtype", "op", "form", "la", "api", "mode"))
+					}
+				}
+			}
 			for _, p := range progs {
 				out = append(out, mkInst("vhC19Hist", map[string]interface{}{"prog": p}, "prog"))
 			}
